@@ -21,9 +21,15 @@ Theorem C13_one_object_per_node : forall h constructed root,
 Proof. exact one_object_per_node. Qed.
 Print Assumptions C13_one_object_per_node.
 
-(* attribute k of the object of n is the image of parameter k of n (OObj m = the object of m),
+(* instantiate runs the calls of the code one by one - for every created configuration, in walk order:
+   setattr(object, name, value) for each parameter, then object.__post_init__(); then execute() of the
+   gathered pre-tasks - on a memory of objects (Instance.replay); r_objects are the attributes the objects
+   end up with, PostInit n l in r_log means: __post_init__ of n ran when exactly the attributes l were set.
+   fields_nodup h: the parameter names of every configuration are pairwise distinct (.values is a dict).
+
+   attribute k of the object of n is the image of parameter k of n (OObj m = the object of m),
    and every object it names was created by this call or constructed before - through cycles too *)
-Theorem C13_wired_like_graph : forall h constructed root r,
+Theorem C13_wired_like_graph : forall h constructed, fields_nodup h -> forall root r,
   instantiate h constructed root = Some r ->
   (forall o, In o (r_objects r) ->
      o_attrs o = map (fun kv => (fst kv, image (snd kv))) (fields (node_at h (o_id o)))) /\
@@ -34,7 +40,7 @@ Print Assumptions C13_wired_like_graph.
 
 (* the log is: one __post_init__ per created object, with all its own parameters set, then
    the executed pre-tasks *)
-Theorem C13_post_init_once_after_fields : forall h constructed root r,
+Theorem C13_post_init_once_after_fields : forall h constructed, fields_nodup h -> forall root r,
   instantiate h constructed root = Some r ->
   exists ids pres,
     r_log r = map (fun n => PostInit n (map fst (fields (node_at h n)))) ids ++ map Execute pres /\
@@ -42,6 +48,15 @@ Theorem C13_post_init_once_after_fields : forall h constructed root r,
     (forall n, In n ids <-> reach h (node_edges false) (cut_constructed constructed) root n).
 Proof. exact post_init_once_after_fields. Qed.
 Print Assumptions C13_post_init_once_after_fields.
+
+(* the statement tells the order of the two steps: with __post_init__ called before the attribute copy
+   (instantiate_post_first) the __post_init__ of a configuration that has parameters sees none of them *)
+Theorem C13_post_init_before_copy_refuted : exists h root r n,
+  fields_nodup h /\ instantiate_post_first h [] root = Some r /\
+  In (PostInit n []) (r_log r) /\ fields (node_at h n) <> [] /\
+  ~ In (PostInit n (map fst (fields (node_at h n)))) (r_log r).
+Proof. exact post_first_refuted. Qed.
+Print Assumptions C13_post_init_before_copy_refuted.
 
 (* each pre-task attached to some created configuration is executed exactly once, also when it
    is attached to several; nothing else is executed; all of it after every __post_init__      *)
